@@ -262,8 +262,8 @@ def tm_classes(case):
 
 
 def in_band_or_discard(lat, lon):
-    if not (-80.0 <= lat <= 84.0) or not (-180.0 <= lon <= 180.0):
-        raise Discard()
+    if not (-80.0 <= lat <= 84.0) or not (-180.0 <= lon < 180.0):
+        raise Discard()          # the quantifier's longitudes are [-180, 180)
 
 
 # ------------------------------------------------------------------------------------------------ grid lattice
